@@ -91,7 +91,7 @@ func TestCheck(t *testing.T) {
 	})
 	run.CollectRaces()
 	run.Assume("sessions write disjoint key sets, so the per-key history has a single writer plus Get readers and Flush callers; a FAILED answer is modelled as 'no effect' (whether the failure itself was justified is C04's question)")
-	run.Finish("child processes built with -race: 2-16 Modify sessions (own direct stream or own gRPC connection each) looping negotiate -> announce rising/equal/lower ids -> batches of ADD/REPLACE/DELETE on their own keys -> occasional disconnect/reconnect (half of them in the middle of a large batch: unread, after one answer, or after the server ended the RPC on an unstamped operation with the rest of the batch behind it), with 2-4 Get readers and 0-2 override Flush callers running concurrently, scheduling perturbed at the repository's yield points. Deciding monitors: race detector (reports with a frame in the repository), per-RPC watchdog + quiescent goroutine-dump classifier (deadlock), process exit (panic), porcupine over the recorded history - per key a register with writes/deletes/flushes/reads from Get, and the announcements as a max-register - and at quiescence: hooked reference counters == referrers recounted, nothing held, reported id == maximum announced, exactly the entitled session can program. Plus, per child, scenarios with a Get whose reader has stopped part-way through one instance and a Flush of that instance queued behind it: negotiation, election, operations, Get and Flush that do not involve that instance must all be answered before the reader resumes. Distinct = by run and its interleaving signature (order in which sessions first became primary)", 5, false)
+	run.Finish("child processes built with -race: 2-16 Modify sessions (own direct stream or own gRPC connection each) looping negotiate -> announce rising/equal/lower ids -> batches of ADD/REPLACE/DELETE on their own keys -> occasional disconnect/reconnect (half of them in the middle of a large batch: unread, after one answer, or after the server ended the RPC on an unstamped operation with the rest of the batch behind it), with 2-4 Get readers and 0-2 override Flush callers running concurrently, scheduling perturbed at the repository's yield points. Deciding monitors: race detector (reports with a frame in the repository), per-RPC watchdog + quiescent goroutine-dump classifier (deadlock), process exit (panic), porcupine over the recorded history - per key a register with writes/deletes/flushes/reads from Get, and the announcements as a max-register - and at quiescence: hooked reference counters == referrers recounted, nothing held, reported id == maximum announced, exactly the entitled session can program. Plus, per child, scenarios with a Get whose reader has stopped part-way through one instance and a Flush of that instance queued behind it: negotiation, election, operations, Get and Flush that do not involve that instance must all be answered before the reader resumes; and scenarios on a server with resolved-entry and post-change hooks registered whose primary programs complete chains into all instances while Flushes of all instances and contents snapshots run continuously (every request answered). Distinct = by run and its interleaving signature (order in which sessions first became primary)", 5, false)
 }
 
 // ---------------------------------------------------------------- child side
@@ -172,6 +172,20 @@ func TestChild(t *testing.T) {
 		wr.InFlight(caseID)
 		if stop := oneRun(wr, caseID, rand.New(rand.NewSource(sp.Seed*1000003+int64(b)*131+int64(k))), sp.Tier == "thorough"); stop {
 			return // a watchdog fired: the stuck goroutines would only make later runs slower
+		}
+	}
+	nHF := 1
+	if sp.Tier == "thorough" {
+		nHF = 2
+	}
+	for k := 0; k < nHF; k++ {
+		caseID := fmt.Sprintf("child-%d/hooks-and-flush-%d", b, k)
+		if sp.Case != "" && sp.Case != caseID {
+			continue
+		}
+		wr.InFlight(caseID)
+		if stop := hookFlushScenario(wr, caseID, rand.New(rand.NewSource(sp.Seed*1000081+int64(b)*139+int64(k))), sp.Tier == "thorough"); stop {
+			return
 		}
 	}
 	for k := 0; k < 4; k++ {
